@@ -78,13 +78,24 @@ def checks_block(repo, cfg, items_path, prf_name):
     """CFG nodes that check every item of the list denoted by items_path: an inline loop head, or a call of the helper"""
     out = []
     for it in cfg.nodes_of_kind('iter'):
-        if path_of(it.ast.iter) == items_path and isinstance(it.ast.target, ast.Name):
-            v = it.ast.target.id
-            body = it.ast.body
-            if all(not isinstance(x, (ast.If, ast.Break, ast.Continue, ast.Try)) for s in body for x in ast.walk(s)) and any(
-                    isinstance(c, ast.Call) and call_name(c) == 'self._check_proof_item' and len(c.args) >= 2 and is_name(c.args[1], v)
-                    for s in body for c in ast.walk(s)):
-                out.append(it)
+        # `for s in X.items:` or `for i, s in enumerate(X.items):` - every element reaches the step checker: from the start of the body neither
+        # the next round nor the end of the function is reachable without the call (a test in front of it can only raise)
+        seq = it.ast.iter
+        tgt = it.ast.target
+        if isinstance(seq, ast.Call) and call_name(seq) == 'enumerate' and seq.args:
+            seq = seq.args[0]
+            tgt = tgt.elts[-1] if isinstance(tgt, ast.Tuple) and tgt.elts else None
+        if path_of(seq) != items_path or not isinstance(tgt, ast.Name):
+            continue
+        calls = [n for n in cfg.nodes if n.kind == 'stmt' and any(
+            isinstance(c, ast.Call) and call_name(c) == 'self._check_proof_item' and len(c.args) >= 2 and is_name(c.args[1], tgt.id)
+            for c in ast.walk(n.ast)) and any(n.ast is x for st in it.ast.body for x in ast.walk(st))]
+        if not calls:
+            continue
+        start = [b for b, l in it.succ if l == 'loop']
+        after = cfg.reach_from(start, skip_nodes=calls)
+        if it.id not in after and cfg.exit.id not in after:
+            out.append(it)
     name, pos = helper_name(repo)
     if name:
         for n in cfg.nodes:
